@@ -59,6 +59,9 @@ type cntOp struct {
 	name   string
 	table  int
 	signer string
+	noTok   bool // no session token: the owner's key is bound in NeoFSID on the way
+	metaOff bool // putMeta with the flag set to false
+	off     int  // setEACL: length of the version field in front of the container reference
 }
 
 type CntDriver struct {
@@ -125,6 +128,10 @@ func NewCntDriver() *CntDriver {
 		cntOp{kind: "delete", i: 0, signer: "S"},
 		cntOp{kind: "setEACL", i: 0, table: 1, signer: "S"},
 		cntOp{kind: "time"},
+		cntOp{kind: "put", i: 1, signer: "C", noTok: true},
+		cntOp{kind: "putMeta", i: 3, signer: "C", noTok: true, metaOff: true},
+		cntOp{kind: "setEACL", i: 0, table: 3, signer: "C", off: 4},
+		cntOp{kind: "setEACL", i: 2, table: 3, signer: "C", off: 4},
 	)
 	return d
 }
@@ -163,7 +170,14 @@ func (d *CntDriver) OpName(_ *Node, i int) string {
 	case "setEACL":
 		return fmt.Sprintf("setEACL(c%d,t%d)by %s", o.i, o.table, o.signer)
 	}
-	return fmt.Sprintf("%s(b%d)by %s", o.kind, o.i, o.signer)
+	x := ""
+	if o.noTok {
+		x = ",no session token"
+	}
+	if o.metaOff {
+		x += ",meta=false"
+	}
+	return fmt.Sprintf("%s(b%d%s)by %s", o.kind, o.i, x, o.signer)
 }
 func (d *CntDriver) Enabled(n *Node, i int) bool {
 	m := n.M.(*cntModel)
@@ -173,10 +187,13 @@ func (d *CntDriver) Enabled(n *Node, i int) bool {
 	return true
 }
 
-func (d *CntDriver) eaclBlob(i, table int) []byte {
-	b := make([]byte, 2+4+32+4)
-	b[1] = 0
-	copy(b[6:], d.cids[i])
+func (d *CntDriver) eaclBlob(i, table int) []byte { return d.eaclBlobOff(i, table, 0) }
+
+// eaclBlobOff: the container reference sits behind a version field of off bytes (the contract reads its length).
+func (d *CntDriver) eaclBlobOff(i, table, off int) []byte {
+	b := make([]byte, 2+off+4+32+4)
+	b[1] = byte(off)
+	copy(b[2+off+4:], d.cids[i])
 	b[len(b)-1] = byte(table)
 	return b
 }
@@ -219,10 +236,16 @@ func (d *CntDriver) Step(x *Exec, n *Node, i int) StepResult {
 		switch o.kind {
 		case "put":
 			scr = Script(h, "put", d.blobs[o.i], sig, d.key33, tok)
+			if o.noTok {
+				scr = Script(h, "put", d.blobs[o.i], sig, d.key33, []byte{})
+			}
 		case "putNamed":
 			scr = Script(h, "putNamed", d.blobs[o.i], sig, d.key33, tok, name, "")
 		case "putMeta":
 			scr = Script(h, "put", d.blobs[o.i], sig, d.key33, tok, true)
+			if o.metaOff {
+				scr = Script(h, "put", d.blobs[o.i], sig, d.key33, []byte{}, false)
+			}
 		}
 		rec := &nm.c[o.i]
 		switch {
@@ -251,7 +274,7 @@ func (d *CntDriver) Step(x *Exec, n *Node, i int) StepResult {
 			}
 			if expHalt {
 				rec.live = true
-				if o.kind == "putMeta" {
+				if o.kind == "putMeta" && !o.metaOff {
 					rec.meta = true
 				}
 				expNotif = []Notif{{"container", "PutSuccess", []any{cidx, "x" + Hx(d.key33)}}}
@@ -277,7 +300,7 @@ func (d *CntDriver) Step(x *Exec, n *Node, i int) StepResult {
 		}
 		// missing container: silently succeeds, nothing changes
 	case "setEACL":
-		scr = Script(h, "setEACL", d.eaclBlob(o.i, o.table), sig, d.key33, tok)
+		scr = Script(h, "setEACL", d.eaclBlobOff(o.i, o.table, o.off), sig, d.key33, tok)
 		if !m.c[o.i].live || !alpha {
 			expHalt = false
 		} else {
@@ -353,7 +376,11 @@ func (d *CntDriver) Step(x *Exec, n *Node, i int) StepResult {
 			gotE := ea.Stack[0].([]any)[0]
 			wantE := "x"
 			if r.eacl != 0 {
-				wantE = "x" + Hx(d.eaclBlob(j, r.eacl))
+				off := 0
+				if r.eacl == 3 {
+					off = 4 // table 3 is the one sent with a four-byte version field
+				}
+				wantE = "x" + Hx(d.eaclBlobOff(j, r.eacl, off))
 			}
 			if gotE != wantE {
 				return viol("eacl", fmt.Sprintf("eACL(c%d) = %v want %v", j, gotE, wantE), where)
@@ -436,42 +463,57 @@ func (d *CntDriver) Step(x *Exec, n *Node, i int) StepResult {
 			return viol("containersOf-owner", fmt.Sprintf("containersOf(O%d) = %v model %v", k, l.Stack, liveBy[k]), where)
 		}
 	}
-	// raw scan
-	cntX, cntO, cntD, cntE, cntA, cntM := 0, 0, 0, 0, 0, 0
+	// raw scan: which container id holds a record of each of the six key families (the meta flag and the tombstone
+	// have no getter: a flag written or removed under the wrong id shows only here)
+	gotK := map[string][]string{}
 	for _, kv := range w.Dump(next, "container") {
 		k := string(kv.K)
+		fam, id := "", ""
 		switch {
 		case len(k) == 33 && k[0] == 'x':
-			cntX++
+			fam, id = "x", k[1:]
 		case len(k) == 58 && k[0] == 'o':
-			cntO++
+			fam, id = "o", k[26:]
 		case len(k) == 33 && k[0] == 'd':
-			cntD++
+			fam, id = "d", k[1:]
 		case len(k) == 36 && strings.HasPrefix(k, "eACL"):
-			cntE++
+			fam, id = "eACL", k[4:]
 		case len(k) == 43 && strings.HasPrefix(k, "nnsHasAlias"):
-			cntA++
+			fam, id = "alias", k[11:]
 		case len(k) == 33 && k[0] == 'm':
-			cntM++
+			fam, id = "m", k[1:]
+		}
+		if fam != "" {
+			gotK[fam] = append(gotK[fam], Hx([]byte(id)))
 		}
 	}
-	wE, wA, wM, wD := 0, 0, 0, 0
-	for _, r := range nm.c {
-		if r.live && r.eacl != 0 {
-			wE++
-		}
-		if r.live && r.alias != "" {
-			wA++
-		}
-		if r.live && r.meta {
-			wM++
+	wantK := map[string][]string{}
+	for j, r := range nm.c {
+		id := Hx(d.cids[j])
+		if r.live {
+			wantK["x"] = append(wantK["x"], id)
+			wantK["o"] = append(wantK["o"], id)
+			if r.eacl != 0 {
+				wantK["eACL"] = append(wantK["eACL"], id)
+			}
+			if r.alias != "" {
+				wantK["alias"] = append(wantK["alias"], id)
+			}
+			if r.meta {
+				wantK["m"] = append(wantK["m"], id)
+			}
 		}
 		if r.dead {
-			wD++
+			wantK["d"] = append(wantK["d"], id)
 		}
 	}
-	if cntX != len(liveAll) || cntO != len(liveAll) || cntD != wD || cntE != wE || cntA != wA || cntM != wM {
-		return viol("raw-scan", fmt.Sprintf("x=%d o=%d d=%d eACL=%d alias=%d m=%d; model live=%d dead=%d eacl=%d alias=%d meta=%d", cntX, cntO, cntD, cntE, cntA, cntM, len(liveAll), wD, wE, wA, wM), where)
+	for _, fam := range []string{"x", "o", "d", "eACL", "alias", "m"} {
+		sort.Strings(gotK[fam])
+		sort.Strings(wantK[fam])
+		if fmt.Sprint(gotK[fam]) != fmt.Sprint(wantK[fam]) {
+			where["family"] = fam
+			return viol("raw-scan", fmt.Sprintf("records of family %q exist for ids %v, model %v", fam, gotK[fam], wantK[fam]), where)
+		}
 	}
 	nn.M = nm
 	return StepResult{Next: nn, Outcome: outcome, Changed: changed, Soft: soft}
